@@ -37,6 +37,7 @@ func specC13() *propertySpec {
 			{"C13-R8", "falsified-means-failed: the fuzz target fails iff the test case is falsified: every failure signal is recorded in the flag before it panics (a recovered or superseded panic is re-raised by the deferred consult) and the flag reaches checkOnce's verdict after the cleanups on every exit (shared with C02-R1, C02-R2)", func(r *Run) { ruleC02R1(r); ruleC02R2(r) }},
 			{"C13-R9", "exhaustion-stays-a-skip: running out of input is an invalidData panic raised by drawBits; no endGroup runs on the panic path (deferred), where its 'group did not use any data' assertion would replace that panic by a plain one and turn the skip into a failure", ruleNoDeferredEndGroup},
 			{"C13-R10", "same-decisions-whether-recording-or-not: MakeFuzz replays on a non-recording stream, a replay of the same words for comparison records: drawn() reports the same position in both modes and runAction decides 'skipped' from it (shared with C04-R4.8)", ruleC04R48},
+			{"C13-R11", "exhaustion-is-not-a-failure-in-Repeat: executeAction reaches its 'no valid action' stopTest only through the retry counter; an action skipped because the input ended is retried into the overrun that skips the fuzz input", ruleExhaustedOnlyByBudget},
 		},
 	}
 }
@@ -598,6 +599,11 @@ func ruleC14R4(r *Run) {
 					ok = true
 				}
 			}
+			// the TB's own Context() through an interface of any name (a locally declared `contexter` as well as the
+			// anonymous interface{ Context() context.Context })
+			if cs.Common.IsInvoke() && cs.Common.Method.Name() == "Context" && cs.Common.Signature().Params().Len() == 0 && cs.Common.Signature().Results().Len() == 1 && p.typeStr(cs.Common.Signature().Results().At(0).Type()) == "context.Context" {
+				ok = true
+			}
 			r.Check(p.fnName(fn)+"#"+cs.Key, cs.Instr.Pos(), ok, "external callee is a documented goroutine-safe API", "external callee "+cs.Key+" is not in the allow-list of goroutine-safe APIs")
 		}
 	}
@@ -754,11 +760,13 @@ func ruleC14R6(r *Run) {
 	p := r.P
 	// functions that acquire T.mu themselves
 	acquires := map[*ssa.Function]bool{}
+	tMu := map[string]bool{} // rendered paths of T's mutex (a generator's own mutex is not T's: user code never re-enters it through T)
 	for _, fn := range p.FuncList {
 		for _, b := range p.body(fn) {
 			for _, in := range b.Instrs {
-				if op := p.lockOpOf(in); op != nil && (op.kind == "Lock" || op.kind == "RLock") && strings.HasSuffix(op.path, ".mu") {
+				if op := p.lockOpOf(in); op != nil && (op.kind == "Lock" || op.kind == "RLock") && strings.HasSuffix(op.path, ".mu") && p.lockOwnerIsT(in) {
 					acquires[fn] = true
+					tMu[op.path] = true
 				}
 			}
 		}
@@ -783,7 +791,7 @@ func ruleC14R6(r *Run) {
 			held := ls[cs.Instr.(ssa.Instruction)]
 			var heldMu string
 			for k := range held {
-				if strings.HasSuffix(k, ".mu") {
+				if strings.HasSuffix(k, ".mu") && tMu[k] {
 					heldMu = k
 				}
 			}
@@ -1159,4 +1167,19 @@ func ruleNoDeferredEndGroup(r *Run) {
 		}
 	}
 	r.Floor("endGroup calls", n, 8)
+}
+
+// lockOwnerIsT: the mutex locked by this call is a field of T.
+func (p *Program) lockOwnerIsT(in ssa.Instruction) bool {
+	c, ok := in.(*ssa.Call)
+	if !ok || len(c.Common().Args) == 0 {
+		return false
+	}
+	fa, ok := c.Common().Args[0].(*ssa.FieldAddr)
+	if !ok {
+		if fa2, ok2 := p.resolve(c.Common().Args[0]).(*ssa.FieldAddr); ok2 {
+			fa, ok = fa2, true
+		}
+	}
+	return ok && p.fieldAddrOwner(fa) == "T"
 }
